@@ -31,7 +31,7 @@ func (r *vxRec) PreReadHeader(erpc.PreCtx) error              { r.hooks++; retur
 // hook runs unless the authentication exchange completed successfully.
 // args: first(0 AUTH_CALL frame with symbolic token, 1 CALL frame first, 2 frame with symbolic type,
 //             3 arbitrary bytes, 4 nothing), nBytes (for 3), pipelined(0/1: a CALL frame follows), otherPluginAfter(0/1),
-//       [setID(0/1): the verifier calls SetID before deciding][, retry(0/1): the verifier calls its receive function again after a failed receive][, panics(0/1): the verifier panics on what it rejects]
+//       [setID(0/1): the verifier calls SetID before deciding][, retry(0/1): the verifier calls its receive function again after a failed receive][, panics(0/1): the verifier panics on what it rejects][, late(0/1): the checker is appended to the peer's plugins after an earlier connection was accepted]
 func VX_C16_Auth(args []int) {
 	first, nBytes, pipelined, after := args[0], args[1], args[2], args[3]
 	rec := &vxRec{}
@@ -66,7 +66,21 @@ func VX_C16_Auth(args []int) {
 		return nil, erpc.NewStatus(erpc.CodeUnauthorized, "bad token", "")
 	})
 	var p erpc.Peer
-	if after == 1 {
+	late := len(args) > 7 && args[7] == 1 // the checker is installed at run time, after an earlier connection was accepted
+	if late {
+		p = erpc.NewPeer(erpc.PeerConfig{}, rec)
+		c0 := newVxConn("srv:1", "cli:0")
+		s0, st0 := p.ServeConn(c0)
+		vxAssume(st0.OK())
+		if after == 1 {
+			p.PluginContainer().AppendLeft(checker)
+		} else {
+			p.PluginContainer().AppendRight(checker)
+		}
+		s0.Close()
+		vxWaitIdle()
+		rec.hooks = 0
+	} else if after == 1 {
 		p = erpc.NewPeer(erpc.PeerConfig{}, checker, rec)
 	} else {
 		p = erpc.NewPeer(erpc.PeerConfig{}, rec, checker)
